@@ -33,6 +33,8 @@ class TickRounding(Harness):
                        "1e-05, 2.5 taken at their exact binary value}; price any real in (0, 1e9]; buy and sell",
               "thorough": "same"}
     reach = ("nontrivial", "on-grid")
+    stubs = ("pams.market.math -> the same functions with their exact-real definitions when applied to proxies "
+             "(floor, ceil, trunc, fabs, isclose); plain numbers go to the real module",)
     assumptions = ("exact real arithmetic: the statement's exact clause ('exactly so whenever tick and price are "
                    "exactly representable') is what is decided; rounding error of the float quotient is outside",)
     outside = ("floating-point error of price / tick for ticks that are not binary fractions", "non-positive prices")
@@ -49,7 +51,14 @@ class TickRounding(Harness):
         m = mk_market(tick=t, price=300, logger=lg)
         p = g.real("p", 0, 10 ** 9, lo_strict=True)
         o = Order(agent_id=0, market_id=0, is_buy=case["is_buy"], kind=LIMIT_ORDER, volume=1, price=p)
-        log = m._add_order(o)
+        import pams.market as PM
+        from .mathstub import ProxyMath
+        old_math = PM.math
+        PM.math = ProxyMath() if g.symbolic else old_math     # exact-real definitions of math.* for proxies
+        try:
+            log = m._add_order(o)
+        finally:
+            PM.math = old_math
         q = log.price
         g.observe(q)
         g.require(o.price == q, "C19.log-price!=order-price")
